@@ -37,6 +37,9 @@ class CallMixin:
                 return self.iface_call(callee, e, st)
             f = self.prog.funcs.get(callee)
             if f is not None:
+                if f.contract is not None and "operation" in f.contract.flags:
+                    # declared abstracted operation: counted, arguments/receiver/result recorded, body not entered
+                    return self.unknown_call(callee, e, st)
                 if f.contract is None:
                     try:
                         return self.call_func(f, e, st)
